@@ -10,6 +10,18 @@
 #include "token.h"
 
 static int g_wantout = 0;
+/* lemon's own trace seam (ParseTrace) -- only compiled into the parser when NDEBUG is off (variant "trace") */
+static FILE * g_lemon = NULL; static char * g_lemon_buf = NULL; static size_t g_lemon_len = 0;
+#ifdef VARIANT_TRACE
+void ParseTrace(FILE * stream, char * zPrefix);
+#endif
+static void lemon_field(void) {
+	if (!g_lemon) return;
+	fflush(g_lemon);
+	ev_bytes("lemon", g_lemon_buf, g_lemon_len);
+	rewind(g_lemon); g_lemon_len = 0; fflush(g_lemon);
+}
+static void lemon_reset(void) { if (g_lemon) { fflush(g_lemon); rewind(g_lemon); } }
 static int pool_count = 0;           /* harness-side count of outstanding token_pool_init() */
 static int pool_exists = 0;
 
@@ -69,6 +81,7 @@ static void log_conv(const char * fam, const char * srcid, long fmt, unsigned lo
 	ev_int("rng", g_wrap_rng_count); ev_int("rand", g_wrap_rand_count); ev_int("srand", g_wrap_srand_count); ev_int("allocs", g_wrap_alloc_count);
 	diag_field();
 	pool_fields();
+	lemon_field();
 	if (g_wantout && out) ev_bytes("out", out, outlen);
 	ev_end();
 }
@@ -97,6 +110,13 @@ int scen_convert(cmd_t * c) {
 	const char * n = c->name;
 	arg_t * a = c->argv;
 	if (!strcmp(n, "wantout")) { g_wantout = (int)arg_long(&a[0]); return 1; }
+	if (!strcmp(n, "ptrace")) {
+#ifdef VARIANT_TRACE
+		if (arg_long(&a[0])) { if (!g_lemon) g_lemon = open_memstream(&g_lemon_buf, &g_lemon_len); ParseTrace(g_lemon, ""); }
+		else { ParseTrace(NULL, ""); }
+#endif
+		return 1;
+	}
 	if (!strcmp(n, "conv")) {
 		const char * fam = a[0].s;
 		srcbuf * sb = src_get(a[1].s);
@@ -107,7 +127,7 @@ int scen_convert(cmd_t * c) {
 		char * copy = malloc(sb->n + 1); memcpy(copy, sb->s, sb->n + 1);   /* the caller's buffer */
 		char * out = NULL; size_t outlen = 0; int isnull = 0, wrote = 0, srcsame = 1;
 		DString * ds = NULL, * res = NULL;
-		counters_reset();
+		counters_reset(); lemon_reset();
 		if (!strcmp(fam, "s_conv")) {
 			out = mmd_string_convert(copy, ext, (short)fmt, (short)lang);
 			if (out) outlen = strlen(out); else isnull = 1;
